@@ -175,6 +175,32 @@ fn run_sc(sc: &Sc) -> Res {
     Res { case: labels.join(" "), imp, violations: viol, discarded }
 }
 
+/// "any receive timeout": the largest representable timeouts behave like receive(): the blocked
+/// receiver is woken by a plain, a priority and a timed send from another thread
+fn unbounded_timeouts(out: &mut Out) {
+    for (ti, timeout) in [Duration::MAX, Duration::from_secs(u64::MAX), Duration::from_secs(u64::MAX / 4), Duration::from_secs(3600 * 24 * 365 * 100)].into_iter().enumerate() {
+        for kind in 0..3u64 {
+            let mut q = EventReceiver::<u64>::default();
+            let s = q.sender().clone();
+            let (tx, rx) = mpsc::channel();
+            let h = std::thread::spawn(move || { let r = std::panic::catch_unwind(std::panic::AssertUnwindSafe(|| q.receive_timeout(timeout))); tx.send(r.ok()).ok(); });
+            std::thread::sleep(Duration::from_millis(25));
+            match kind { 0 => s.send(7), 1 => s.send_with_priority(7), _ => { s.send_with_timer(7, Duration::from_millis(10)); } }
+            let got = rx.recv_timeout(Duration::from_millis(2500));
+            let what = ["send()", "send_with_priority()", "send_with_timer(10 ms)"][kind as usize];
+            match got {
+                Ok(Some(Some(7))) => {}
+                Ok(None) => out.violation(&format!("[C16] receive_timeout({:?}) panicked instead of waiting ({} from another thread)", timeout, what)),
+                Ok(Some(other)) => out.violation(&format!("[C16] receive_timeout({:?}) returned {:?} although {} delivered an event 25 ms into the wait", timeout, other, what)),
+                Err(_) => { out.violation(&format!("[C16] a receiver blocked in receive_timeout({:?}) was not woken within 2.5 s by {} from another thread", timeout, what)); s.send(999); }
+            }
+            let _ = h.join();
+            let _ = ti;
+            out.count("unbounded_timeouts");
+        }
+    }
+}
+
 /// two timers pending at once; the receiver blocks, gets the first, blocks again: the second must
 /// wake it at its own deadline (the alarm has to be re-armed after a delivery)
 fn two_timers_two_receives(out: &mut Out) {
@@ -305,6 +331,12 @@ pub fn run(a: &Args) {
         scs.push(Sc { dq: Some(3_600_000 * MS), recv: Recv::Timeout(1000 * MS), wake: Wake::FarCancelThenPlain(n), delta: 20 * MS });
     }
     scs.push(Sc { dq: None, recv: Recv::Forever, wake: Wake::FarCancelThenPlain(2), delta: 20 * MS });
+    // the receiver has already been blocked for a long time when the other thread acts
+    for recv in [Recv::Timeout(500 * MS), Recv::Timeout(640 * MS), Recv::Forever] {
+        scs.push(Sc { dq: None, recv, wake: Wake::Timer(20 * MS), delta: 300 * MS });
+        scs.push(Sc { dq: Some(3_600_000 * MS), recv, wake: Wake::Timer(20 * MS), delta: 300 * MS });
+        scs.push(Sc { dq: Some(3_600_000 * MS), recv, wake: Wake::Prio, delta: 300 * MS });
+    }
     let n = scs.len();
     let nthreads = 12;
     let scs = std::sync::Arc::new(scs);
@@ -335,6 +367,7 @@ pub fn run(a: &Args) {
         }
     }
     two_timers_two_receives(&mut out);
+    unbounded_timeouts(&mut out);
     never_early_sweep(&mut out, a.thorough);
     out.finish();
 }
